@@ -167,7 +167,7 @@ inductive Exc | notImplemented | assertion | valueError | nameError
 
 mutual
 /-- recurses into `X | Y`, list and tuple arguments (a `typing.List[…]` comes back as a builtin `list[…]`);
-    anything that is neither a class nor one of those — `typing.Union[…]`, `...`, a string — raises
+    `...` is returned unchanged; anything else that is not a class — `typing.Union[…]`, a string — raises
     `NotImplementedError`.  (`dict` annotations are outside the modelled fragment.) -/
 def replaceUnion : Ann → Except Exc Ann
   | .unionType args => do let l ← replaceUnionL args; pure (mkTypingUnion l)
@@ -183,7 +183,7 @@ def replaceUnion : Ann → Except Exc Ann
   | .builtin .tuple args => do let l ← replaceUnionL args; pure (.builtin .tuple l)
   | .cls c => pure (.cls c)
   | .typing .union _ => throw .notImplemented
-  | .ellipsis => throw .notImplemented
+  | .ellipsis => pure .ellipsis             -- the `...` of `tuple[X, ...]` is returned unchanged (:77-79)
   | .strAnn _ => throw .notImplemented
 termination_by structural a => a
 def replaceUnionL : List Ann → Except Exc (List Ann)
@@ -386,7 +386,8 @@ def asCallable : Ann → Conv
   | .strAnn _ => .strObj
 
 /-- `get_argparse_type_for_container`: the *first* type argument; `bool` → `str2bool`, an enum →
-    `parse_enum`, anything else **is used as the callable itself**. -/
+    `parse_enum`, a union (either representation) → `get_parsing_fn` of it (utils.py:227-232), anything else
+    **is used as the callable itself**. -/
 def containerTypeFn (a : Ann) : Conv :=
   match getArgs a with
   | [] => .ctor .str                       -- `Any` → `str`
@@ -394,7 +395,7 @@ def containerTypeFn (a : Ann) : Conv :=
     match item with
     | .cls .bool => .str2bool
     | .cls (.enum n) => .enumParse n
-    | t => asCallable t
+    | t => if isUnion t then parsingFn t else asCallable t
 
 inductive Nargs | none | opt | star | n (k : Nat)
   deriving DecidableEq, Repr
